@@ -12,7 +12,7 @@ import ast
 import os
 import re
 import shlex
-from typing import Any, Dict, List, Tuple
+from typing import Any, Dict, List, Set, Tuple
 
 from ..core import REPO, SRC, AnalysisError, Report, rel
 from ..grammar import Tables, build_reference, extract_shipped, isomorphism, normalise
@@ -119,7 +119,51 @@ def lexer_wiring(rep: Report, tree: ast.Module) -> None:
               f"src/measured/_parser.py:{sm[0].lineno if sm else 0}")
 
 
+def parser_wiring(rep: Report, tree: ast.Module) -> None:
+    """R16.8: the LALR driver consults the compared tables and nothing else:
+      a. the action for a token is `states[<top of state stack>][token.type]`, a miss raises UnexpectedToken;
+      b. a reduction pops exactly len(rule.expansion) entries from both stacks and takes the goto from
+         `states[<new top>][rule.origin.name]`;
+      c. the contextual lexer picks the lexer of the parser's current state."""
+    classes = {n.name: n for n in tree.body if isinstance(n, ast.ClassDef)}
+    for need in ("ParserState", "ContextualLexer"):
+        if need not in classes:
+            raise AnalysisError(f"_parser.py: class {need} not found (R16.8 anchor moved)")
+    ft = [m for m in classes["ParserState"].body if isinstance(m, ast.FunctionDef) and m.name == "feed_token"]
+    if not ft:
+        raise AnalysisError("_parser.py: ParserState.feed_token not found (R16.8 anchor moved)")
+    fn = ft[0]
+    where = f"src/measured/_parser.py:{fn.lineno}"
+    tok = fn.args.args[1].arg
+
+    def norm(x: ast.AST) -> str:
+        return ast.unparse(x).replace(" ", "")
+    defs = {n.targets[0].id: norm(n.value) for n in ast.walk(fn) if isinstance(n, ast.Assign) and len(n.targets) == 1 and isinstance(n.targets[0], ast.Name)}
+    lookups = [n for n in ast.walk(fn) if isinstance(n, ast.Subscript) and isinstance(n.value, ast.Subscript) and isinstance(n.value.value, ast.Name)
+               and defs.get(n.value.value.id, "").endswith(".states")]
+    top = {k for k, v in defs.items() if v.endswith("state_stack[-1]") or v == "state_stack[-1]"} | {"state_stack[-1]", "self.state_stack[-1]"}
+    act = [n for n in lookups if norm(n.slice) == f"{tok}.type"]
+    rep.check("R16.8", "feed_token:action-lookup", bool(act) and all(norm(n.value.slice) in top for n in act),
+              f"the action for a token is no longer read as states[top of stack][{tok}.type]", where)
+    handlers = [h for t in ast.walk(fn) if isinstance(t, ast.Try) and any(a in list(ast.walk(t.body[0])) for a in act if t.body) for h in t.handlers]
+    rep.check("R16.8", "feed_token:miss", bool(handlers) and all(any(isinstance(x, ast.Raise) and "UnexpectedToken" in norm(x) for x in ast.walk(h)) for h in handlers),
+              "a missing table entry no longer raises UnexpectedToken (a token the grammar does not allow here would be accepted or crash)", where)
+    goto = [n for n in lookups if norm(n.slice).endswith(".origin.name")]
+    rep.check("R16.8", "feed_token:goto-lookup", bool(goto) and all(norm(n.value.slice) in ("state_stack[-1]", "self.state_stack[-1]") for n in goto),
+              "after a reduction the next state is no longer read as states[new top][rule.origin.name]", where)
+    size = [k for k, v in defs.items() if v.startswith("len(") and v.endswith(".expansion)")]
+    dels = [norm(n) for n in ast.walk(fn) if isinstance(n, ast.Delete)]
+    okpop = bool(size) and all(any(d == f"del{st}[-{size[0]}:]" for d in dels) for st in ("state_stack", "value_stack"))
+    rep.check("R16.8", "feed_token:reduce-pops", okpop,
+              "a reduction no longer pops len(rule.expansion) entries from both the state and the value stack", where)
+    cl = [m for m in classes["ContextualLexer"].body if isinstance(m, ast.FunctionDef) and m.name == "lex"]
+    okc = bool(cl) and any(isinstance(n, ast.Subscript) and norm(n.value) == "self.lexers" and norm(n.slice).endswith(".position") for n in ast.walk(cl[0]))
+    rep.check("R16.8", "ContextualLexer.lex", okc, "the contextual lexer no longer picks self.lexers[<parser state>.position]",
+              f"src/measured/_parser.py:{cl[0].lineno if cl else 0}")
+
+
 def run(rep: Report) -> None:
+    rep.rule("R16.8", "embedded LALR driver wiring: actions and gotos come from the (compared) tables, reductions pop the rule's length", floor=5)
     rep.rule("R16.7", "embedded lexer wiring: input is consumed only through the scanner built from the (compared) terminal table", floor=5)
     rep.rule("R16.1", "options: parser type, lexer type and start symbols agree between grammar build, shipped artefact, "
              "Makefile flags and the start= arguments used by Unit.parse / Quantity.parse", floor=4)
@@ -188,6 +232,7 @@ def run(rep: Report) -> None:
         rep.check("R16.5", f"assigned-once:{nm}", sh.assignments.get(nm) == 1, f"{nm} is assigned or item-assigned {sh.assignments.get(nm)} times",
                   "src/measured/_parser.py")
     lexer_wiring(rep, sh.tree)
+    parser_wiring(rep, sh.tree)
     # R16.6
     rep.inventory("R16.6", {"embedded_lark": sh.version, "installed_lark": lark_version,
                             "compared": sh.version == lark_version,
